@@ -962,6 +962,9 @@ pub struct Sink {
     pub distinct: std::collections::HashSet<String>,
     pub evaluations: u64,
     pub reproduced: Vec<String>,
+    /// (cid, rendering of ops + row maps) of every program circuit emitted so far: two *programs* may
+    /// compile to one and the same structure, and `sid` is the first circuit with that structure
+    pub structs: Vec<(usize, String)>,
 }
 
 impl Sink {
@@ -973,7 +976,15 @@ impl Sink {
                     self.cases.push(cl.line());
                 }
                 self.cases.push("endcirc".into());
-                self.impl_.push(format!("circ {} fp {} {} {} {} cls {} sid {}", c.cid, c.fp.0, c.fp.1, c.fp.2, c.fp.3, c.cls, c.cid));
+                let rendering = format!("{:?}|{:?}|{:?}", c.circuit.ops, c.circuit.public_rows, c.circuit.private_input_rows);
+                let sid = match self.structs.iter().find(|(_, r)| *r == rendering) {
+                    Some((first, _)) => *first,
+                    None => {
+                        self.structs.push((c.cid, rendering));
+                        c.cid
+                    }
+                };
+                self.impl_.push(format!("circ {} fp {} {} {} {} cls {} sid {}", c.cid, c.fp.0, c.fp.1, c.fp.2, c.fp.3, c.cls, sid));
             }
             None => {
                 self.cases.push(format!("ext {} {} {} {} {} {}", c.cid, c.fp.0, c.fp.1, c.fp.2, c.fp.3, c.cls));
@@ -1145,6 +1156,7 @@ pub fn main(args: &crate::Args) {
         distinct: Default::default(),
         evaluations: 0,
         reproduced: vec![],
+        structs: vec![],
     };
     let t0 = std::time::Instant::now();
     run_stub(args, &cfg, &dummy, &mut sink);
